@@ -14,7 +14,7 @@ RULE = ("encode: _encode_encrypted_request(counter, payload) for every payload l
         "keys and counters, parsed by the independent reference (marker, size == len-8, type 6, pad nibble, AES-CBC zero IV, SHA-256 "
         "tag over header+plaintext, counter, minimal padding); decode: reference-built encrypted responses for every length through "
         "_process_packet must yield exactly the payload; wire: both directions through LAN.send on an authenticated simulated V3 "
-        "connection; tamper: every single-bit flip of header, ciphertext and tag of a response (one length per residue) must give "
+        "connection; tamper (the genuine response is accepted on the same protocol object before and between the altered copies): every single-bit flip of header, ciphertext and tag of a response (one length per residue) must give "
         "ProtocolError from _process_packet (type-nibble flips judged at LAN.send level, where marker/size flips may also end in "
         "TimeoutError because no packet is ever framed). distinct = (kind, length, counter/bit); non-trivial = all")
 ASSUMPTIONS = ["mv/ref/v3.py is a correct reading of the V3 packet overview",
@@ -219,8 +219,18 @@ def _tamper(ctx, case):
     key, payload = bytes(case["key"]), bytes(case["payload"])
     pkt = v3.build_encrypted(key, payload, case["counter"], v3.T_ENC_RESP)
     proto = _proto(key)
+    nflips = 0
     for pos in range(len(pkt)):
         for bit in range(8):
+            if nflips % 5 == 0:
+                # the genuine response is accepted on this same protocol object before (and between) the altered copies
+                try:
+                    with memoryview(pkt) as mv:
+                        if bytes(proto._process_packet(mv)) != payload:
+                            ctx.violation("decode-payload-mismatch", "genuine response mis-decoded between tamper attempts", case)
+                except Exception as e:  # noqa: BLE001
+                    ctx.violation("decode-raises", f"genuine response rejected between tamper attempts: {type(e).__name__}: {e}", case)
+            nflips += 1
             if pos == 5 and bit == 1:
                 ctx.skip("type-nibble 3->1 flip judged at LAN.send level")
                 continue
